@@ -19,7 +19,8 @@ RULE = ("One generated file (content kind x size around k*4096 / 0 / 1 / large x
         "in a real directory or inside a ZIP, shipped or full handler list) requested through every document form "
         "(Gopher, Gopher+ '+' and '!', HTTP GET/HEAD, WAP, Gemini, Spartan, TLS variants). Oracles: body == file bytes "
         "(== decompressed bytes where the full list's decompressor claims the name; WAP text/plain inverted line by "
-        "line); '+N' == len(body); HEAD == GET headers, no body; advertised type == reference MIME model. "
+        "line); '+N' == len(body); HEAD == GET headers, no body; advertised type == reference MIME model. A live tier "
+        "fetches files of 0 B .. 1 MiB from real threading / forking servers over plaintext and real TLS sockets. "
         "Non-trivial: size >= 4096, or binary content, or a name outside [A-Za-z0-9._-]; distinct by case hash.")
 ASSUMPTIONS = [
     "the stdlib mimetypes.MimeTypes class (private instance, configured files and encodings) is the trusted reading of "
@@ -130,7 +131,63 @@ def _file_lines_rstripped(data):
     return [l.decode("utf-8", "surrogateescape").rstrip().encode("utf-8", "surrogateescape") for l in lines]
 
 
+LIVE_SIZES = [0, 1, 4095, 4096, 4097, 65535, 65536, 65537, 200000, 1048576]
+LIVE_FORMS = ["gopher", "gophers", "gplus", "gpluss", "http", "https", "gemini", "spartan"]
+
+
+def enumerate_cases(tier, seed):
+    """live tier: real sockets and real TLS (what the in-process driver cannot see, e.g. descriptor-level shortcuts)"""
+    yield {"mode": "live", "servertype": "ThreadingTCPServer"}
+    yield {"mode": "live", "servertype": "ForkingTCPServer"}
+
+
+def _check_live(case, ctx):
+    import os
+    from pgv import live
+    base = world.fresh_dir("c04live")
+    root = os.path.join(base, "root")
+    os.mkdir(root)
+    files = {}
+    for sz in LIVE_SIZES:
+        files["f%d.bin" % sz] = _content("allbytes", sz, sz)
+        files["t%d.txt" % sz] = _content("text", sz, sz)
+    world.materialise([[n, "f", world.u(c)] for n, c in files.items()], root)
+    srv = None
+    fails = []
+    try:
+        srv = live.Server(live.write_conf(os.path.join(base, "s.conf"), root, "full", case["servertype"], cachetime=0))
+        for n, data in sorted(files.items()):
+            for form in LIVE_FORMS:
+                tls, fam = clients.FORMS[form]
+                try:
+                    got = live.request(srv.port, clients.encode(form, b"/" + n.encode()), tls, timeout=30)
+                except Exception as e:
+                    got = e
+                ctx.evaluations += 1
+                ctx.count("live_requests")
+                if len(data) >= 4096:
+                    ctx.nontriv(("live", case["servertype"], n, form))
+                if isinstance(got, Exception):
+                    fails.append(Fail("live-failed:%s:%s" % (fam, "tls" if tls else "plain"), "live %s request for /%s failed: %r" % (form, n, got)))
+                    continue
+                pr = clients.parse_response(form, got, expect_menu=False)
+                if not pr.ok or pr.body != data or (pr.length is not None and pr.length != len(pr.body)):
+                    fails.append(Fail("live-body:%s:%s" % (fam, "tls" if tls else "plain"),
+                                      "over a real %s socket the %s body of /%s (%d bytes) arrives as %d bytes%s" % (
+                                          "TLS" if tls else "plaintext", form, n, len(data), len(pr.body),
+                                          "" if pr.ok else " (not a success reply: %r)" % got[:60])))
+        ctx.label("live:" + case["servertype"])
+        ctx.sample({"live": case["servertype"], "sizes": LIVE_SIZES, "forms": LIVE_FORMS}, cls="live")
+        return _dedup(fails)
+    finally:
+        if srv is not None:
+            srv.stop()
+        world.rmtree(base)
+
+
 def check_case(case, ctx):
+    if case.get("mode") == "live":
+        return _check_live(case, ctx)
     name, full, inzip = case["name"], case["full"], case["inzip"] and case["full"]
     data = _content(case["ckind"], case["size"], case["seed"])
     cfg0 = drive.make_config("/x", "full" if full else "shipped")
